@@ -127,6 +127,11 @@ MUTANTS = [
      "        if self.BCsTerm_precalc:\n            self._BCsTerm = boundaryConditionsTerm(self.BCs)\n \n        # The BCs object may be shared with other CellVariables: count each\n        # consumed modification, so that they can tell their cache is stale.\n        if self.BCs.modified:\n            self.BCs._epoch += 1\n        self._BCs_epoch = self.BCs._epoch\n        self.BCs.modified = False\n        self.value.modified = False\n",
      "        if self.BCs.modified:\n            self.BCs._epoch += 1\n        self._BCs_epoch = self.BCs._epoch\n        self.BCs.modified = False\n        self.value.modified = False\n        if self.BCsTerm_precalc:\n            self._BCsTerm = boundaryConditionsTerm(self.BCs)\n",
      ["C09"], "caught"),
+    # the boundary system is put into the caller's term list (which a time loop reuses)
+    ("solve-inserts-bc-term-into-callers-list", P,
+     "    M = Mbc.copy() # need to copy, so that original 'bcterm' is protected\n    RHS = RHSbc.copy() # need to copy, so that original 'bcterm' is protected",
+     "    eqnterms.insert(0, (Mbc.copy(), RHSbc.copy()))\n    M = 0*Mbc\n    RHS = 0*RHSbc",
+     ["C15"], "caught"),
     # assembly order depends on the per-process string hash: same bytes within one
     # interpreter, other rounding in the next one
     ("terms-summed-in-hash-order", P,
